@@ -2,6 +2,7 @@ package main
 
 import (
 	"bufio"
+	"math/rand"
 	"encoding/base64"
 	"encoding/json"
 	"fmt"
@@ -349,8 +350,8 @@ var fatalRe = regexp.MustCompile(`(?m)^(fatal error: [^\n]*|panic: [^\n]*|runtim
 // which it died or hung, after confirming that input alone), writes trace-<k>.ndjson, index-<k>.ndjson,
 // incidents.ndjson and summary.json.
 func lexMain(args []string) {
-	if len(args) != 5 {
-		fmt.Fprintln(os.Stderr, "usage: syntax lex <outdir> <nSmall> <nBig> <chunks> <timeoutSec>")
+	if len(args) < 5 {
+		fmt.Fprintln(os.Stderr, "usage: syntax lex <outdir> <nSmall> <nBig> <chunks> <timeoutSec> [tlc.out of LexerInputs ...]")
 		os.Exit(2)
 	}
 	dir := args[0]
@@ -360,6 +361,42 @@ func lexMain(args []string) {
 	tmo, _ := strconv.Atoi(args[4])
 	_ = os.MkdirAll(dir, 0o755)
 	ins := generate(util.Seed(), nSmall, nBig, maxSmall)
+	// the model universe of comment / line-break layouts (LexerInputs.tla, enumerated by TLC): every sequence as it is
+	// (the input ends there) and followed by tokens on two later lines; mixed into the random inputs (seeded shuffle)
+	var model []genInput
+	for _, p := range args[5:] {
+		err := util.ReadLines(p, func(line []byte) error {
+			obj, ok := tlcLine(string(line))
+			if !ok {
+				return nil
+			}
+			fr, ok := obj["frags"].([]any)
+			if !ok {
+				return nil
+			}
+			var sb strings.Builder
+			for _, f := range fr {
+				sb.WriteString(f.(string))
+			}
+			model = append(model, genInput{"model-eof", []byte(sb.String())}, genInput{"model", []byte(sb.String() + "\nx y\nz")})
+			return nil
+		})
+		if err != nil {
+			fmt.Fprintln(os.Stderr, "syntax lex:", err)
+			os.Exit(2)
+		}
+	}
+	if len(args) > 5 && len(model) == 0 {
+		fmt.Fprintln(os.Stderr, "syntax lex: no model inputs in", args[5:])
+		os.Exit(2)
+	}
+	if len(model) > 0 {
+		nsm := len(ins) - nBig
+		smallsAll := append(model, ins[:nsm]...)
+		rng := rand.New(rand.NewSource(util.Seed()*31 + 5))
+		rng.Shuffle(len(smallsAll), func(i, j int) { smallsAll[i], smallsAll[j] = smallsAll[j], smallsAll[i] })
+		ins = append(smallsAll, ins[nsm:]...)
+	}
 	// interleave the stress inputs with the small ones so that every chunk (= one process history) has both
 	total := len(ins)
 	inPath := filepath.Join(dir, "inputs.ndjson")
